@@ -93,19 +93,26 @@ def secret():
 @st.composite
 def strat_split(draw, tier):
     nmax = 12 if tier == "quick" else 40
-    big = draw(st.integers(0, 60)) == 0
+    big = draw(st.integers(0, 19)) == 0
     if big:
-        n = draw(st.sampled_from([64, 128, 255]))
-        k = draw(st.integers(2, 6))
+        # many shares / high share indexes: products of k index elements reach degree >= 128 (reduction really needed) from k ~ 16 upwards
+        n = draw(st.sampled_from([40, 64, 128, 255, 255, 1000 if tier != "quick" else 255]))
+        k = min(n, draw(st.sampled_from([2, 3, 6, 16, 20, 24, 27, 33, 40])))
     else:
         n = draw(st.integers(2, nmax))
         k = draw(st.integers(2, min(n, 12)))
     coeffs = [draw(st.one_of(st.sampled_from(SECRETS), st.binary(min_size=16, max_size=16))) for _ in range(k - 1)]
     nsub = draw(st.integers(1, 6))
     subsets = []
-    for _ in range(nsub):
-        idx = draw(st.lists(st.integers(1, n), min_size=k, max_size=k, unique=True))
-        subsets.append(idx)
+    for _ in range(nsub if not big else 3):
+        how = draw(st.sampled_from(["rand", "rand", "highest", "lowest"])) if big else "rand"
+        if how == "highest":
+            idx = draw(st.permutations(list(range(n - k + 1, n + 1))))
+        elif how == "lowest":
+            idx = list(range(1, k + 1))
+        else:
+            idx = draw(st.lists(st.integers(1, n), min_size=k, max_size=k, unique=True))
+        subsets.append(list(idx))
     return {"k": k, "n": n, "secret": draw(secret()), "ssss": draw(st.booleans()), "coeffs": coeffs,
             "subsets": subsets, "all_subsets": draw(st.booleans())}
 
